@@ -61,4 +61,36 @@ func corpus(w *lib.Writer) {
 		ins(S("a")), Step{Op: "sort", Cmp: &Cmp{Kind: "default"}}, rd)
 	add(ins(S("b")), ins(S("")), ins(S("ab")), ins(S("B")), ins(S("\xff")), Step{Op: "sort", Cmp: &Cmp{Kind: "default"}}, rd,
 		Step{Op: "sort", Cmp: &Cmp{Kind: "bits", Bits: []bool{true, false, true, true, false}}}, rd)
+	// wave 5: table.sort re-entered from its own comparator / __lt metamethod (same thread, under
+	// pcall with a failing inner comparator, in a coroutine, in a second state, two levels deep),
+	// the outer sort inside a coroutine, the comparator sorting the very table being sorted
+	vs := func(xs ...int64) []tv.V {
+		l := make([]tv.V, len(xs))
+		for i, x := range xs {
+			l[i] = I(x)
+		}
+		return l
+	}
+	fill := func(xs ...int64) []Step {
+		var st []Step
+		for _, x := range xs {
+			st = append(st, ins(I(x)))
+		}
+		return st
+	}
+	O := func(i int) Step { return ins(tv.Obj(i)) }
+	nsort := func(kind string, l []tv.V, c string) NestAct { return NestAct{Kind: kind, List: l, Cmp: &Cmp{Kind: c}} }
+	add(append(fill(5, 3, 8, 1, 9, 2, 7, 3), Step{Op: "sort", Cmp: &Cmp{Kind: "lt"}, Nest: &Nest{At: 1, Every: 1,
+		Acts: []NestAct{nsort("sort", vs(3, 1, 2), "default"), nsort("sort", vs(2, 9, 4, 1), "gt")}}}, rd)...)
+	add(append(fill(4, 6, 1, 1, 0, 7), Step{Op: "sort", Cmp: &Cmp{Kind: "gt"}, Nest: &Nest{At: 2, Every: 2,
+		Acts: []NestAct{{Kind: "pcall", List: vs(3, 1, 2, 0), Cmp: &Cmp{Kind: "failat", K: 2}}, nsort("co", vs(2, 1), "lt"),
+			nsort("state2", vs(6, 5, 4), "lt"), {Kind: "pcall", List: []tv.V{I(1), S("a"), I(0)}, Cmp: &Cmp{Kind: "default"}}}}}, rd,
+		Step{Op: "sort", Cmp: &Cmp{Kind: "default"}}, rd)...)
+	add(append(fill(2, 1, 3, 0, 5), Step{Op: "sort", Cmp: &Cmp{Kind: "lt_truthy"}, Co: true, Nest: &Nest{At: 1, Every: 3,
+		Acts: []NestAct{{Kind: "sort", List: vs(9, 8, 7, 6), Cmp: &Cmp{Kind: "lt"}, Nest: &Nest{At: 1, Every: 1, Acts: []NestAct{nsort("sort", vs(1, 0), "nil")}}}}}}, rd)...)
+	add(O(3), O(0), O(2), O(0), O(5), O(1), Step{Op: "sort", Cmp: &Cmp{Kind: "meta"}}, rd,
+		Step{Op: "sort", Cmp: &Cmp{Kind: "metalt", B: true}, Nest: &Nest{At: 1, Every: 1, Acts: []NestAct{nsort("sort", vs(2, 1, 3), "default")}}}, rd,
+		Step{Op: "sort", Cmp: &Cmp{Kind: "default"}}, rd, ins(I(1)), Step{Op: "sort", Cmp: &Cmp{Kind: "meta"}}, rd)
+	add(append(fill(5, 3, 8, 1, 9, 2, 7), Step{Op: "sortmut", I: zp(2), Cmp: &Cmp{Kind: "lt"}, Act: "sortself"})...)
+	add(append(fill(5, 3, 8, 1, 9, 2, 7), Step{Op: "sortmut", I: zp(3), Cmp: &Cmp{Kind: "const", B: true}, Act: "insert"})...)
 }
